@@ -21,6 +21,7 @@ type vPipe struct {
 	prev     supervisor.Object
 	// the object's Inherit panics after it has taken over from its predecessor
 	panicInherit bool
+	panicInit    bool
 }
 
 var vLogInit, vLogInherit, vLogClose int
@@ -34,6 +35,9 @@ func (p *vPipe) Init(s *supervisor.Spec, m context.MuxMapper) {
 	p.inits++
 	vLogInit++
 	p.bind(s)
+	if p.panicInit {
+		panic("init failed")
+	}
 }
 func (p *vPipe) Inherit(s *supervisor.Spec, prev supervisor.Object, m context.MuxMapper) {
 	p.inherits++
